@@ -295,28 +295,12 @@ theorem frame_writeToPair (a : Agent) (now id len : Nat) (s : Bool) : Frame a (a
 
 theorem frame_inboundData (a : Agent) (now : Nat) (l : Cand) (src len : Nat) :
     Frame a (a.inboundData now l src len).1 := by
-  unfold Agent.inboundData
+  unfold Agent.inboundData Agent.enqueue
   dsimp only
-  split
-  · rename_i x lu s ru h
-    dsimp only
-    simp only [Bool.not_true, Bool.false_eq_true, if_false]
-    split
-    · split
-      · exact Frame.of_fields rfl rfl rfl rfl rfl (fun _ h => h)
-      · exact Frame.of_fields rfl rfl rfl rfl rfl (fun _ h => h)
-    · exact Frame.of_fields rfl rfl rfl rfl rfl (fun _ h => h)
-  · split
-    · dsimp only
-      simp only [Bool.not_true, Bool.false_eq_true, if_false]
-      split
-      · split
-        · exact Frame.of_fields rfl rfl rfl rfl rfl (fun _ h => h)
-        · exact Frame.of_fields rfl rfl rfl rfl rfl (fun _ h => h)
-      · exact Frame.of_fields rfl rfl rfl rfl rfl (fun _ h => h)
-    · dsimp only
-      simp only [Bool.not_false, if_true]
-      exact Frame.refl _
+  repeat' split
+  all_goals first
+    | exact Frame.refl _
+    | exact Frame.of_fields rfl rfl rfl rfl rfl (fun _ h => h)
 
 theorem frame_resetSelector (a : Agent) (now : Nat) : Frame a (a.resetSelector now) :=
   Frame.of_fields rfl rfl rfl rfl rfl (fun _ h => h)
